@@ -176,6 +176,14 @@ int main(int argc, char **argv)
       for (i = 0; i < D->n_fragment; i++) printf(" %d", D->fragment[i].modified ? 1 : 0);
       printf("\n");
     }
+    if (getenv("C12_PARENT_ENDIAN")) {
+      /* the root fragment changes its byte order (metadata only): every child that inherited it must restate its own */
+      int r0 = gd_alter_endianness(D, GD_BIG_ENDIAN, 0, 0);
+      int i;
+      printf("parent-endian %d\nbefore flags", r0);
+      for (i = 0; i < D->n_fragment; i++) printf(" %d", D->fragment[i].modified ? 1 : 0);
+      printf("\n");
+    }
     mark("/__GD_MARK_BEGIN__");
     ret = do_op(D, op);
     mark("/__GD_MARK_END__");
